@@ -141,11 +141,11 @@ def ancestors_closure(nodes, targets):
     return seen
 
 
-def input_spec(nodes, bound=None, select=None, entry=None):
+def input_spec(nodes, bound=None, select=None, entry=None, drop=()):
     """Reference input classification for gate-free acyclic programs: (required, optional) as sets."""
     bound = bound or {}
     prod = producers(nodes)
-    active = {n["name"] for n in nodes}
+    active = {n["name"] for n in nodes} - set(drop)
     if entry is not None:
         active = descendants(nodes, entry)
     if select is not None:
